@@ -837,6 +837,8 @@ type gluesigGate struct {
 	firstHeld chan struct{}           // closed when the leader's first download arrives
 	once      sync.Once
 	joined    int // downloads that were released after every expected reader had asked (interleaving achieved)
+	// the run has a cache directory (later HEADs do not reach this transport)
+	headsCached bool
 }
 
 func (g *gluesigGate) request(req *http.Request) {
@@ -873,7 +875,13 @@ func (g *gluesigGate) request(req *http.Request) {
 		}
 		return true
 	}
-	deadline := time.Now().Add(400 * time.Millisecond)
+	// with a cache directory the transport in front of this one answers later HEADs for the same URL from its own
+	// per-run HEAD cache: they are never seen here, so do not wait long for them
+	wait := 400 * time.Millisecond
+	if g.headsCached {
+		wait = 60 * time.Millisecond
+	}
+	deadline := time.Now().Add(wait)
 	for {
 		g.mu.Lock()
 		ok := covered(g.heads)
@@ -1190,7 +1198,7 @@ func (e *gluesigEnv) execRun(k int, run gluesigRun) (apksField, opsField string,
 		}
 		// concurrent: which operation (other than the leader) is going to read which remote index
 		gate := &gluesigGate{expect: map[string]map[int]bool{}, heads: map[string]map[int]bool{}, gets: map[string]map[int]bool{},
-			held: map[string]bool{}, firstHeld: make(chan struct{})}
+			held: map[string]bool{}, firstHeld: make(chan struct{}), headsCached: e.c.Cache}
 		for j := 1; j < len(run.Apks); j++ {
 			owners := []int{j}
 			if run.Sibs {
